@@ -22,11 +22,15 @@ Print Assumptions C20_checker_sound.
 (* Full: in every reachable world each filled table holds its constant value *)
 Theorem C20_cache_inv_any_table :
   forall (args val res rstate : Type) (table : list sig) (const : Z -> val) (argval : Z -> args -> Z -> val)
-         (accval : Z -> args -> Z -> option val -> val)
+         (accval : Z -> args -> Z -> option val -> val) (mval : Z -> args -> val) (key_eqb : args -> args -> bool)
          (body : Z -> args -> list (option val) -> @rsrc rstate -> res)
          (rng_next : Z -> args -> @rsrc rstate -> rstate -> rstate),
-  sigs_ok table -> forall r0 h g v,
-  cache (run args val res rstate table const argval accval body rng_next r0 h) g = Some v -> v = const g.
+  (forall a b, key_eqb a b = true -> a = b) ->
+  sigs_ok table -> forall r0 h,
+  (forall g v, cache (run args val res rstate table const argval accval mval key_eqb body rng_next r0 h) g = Some v ->
+               v = const g) /\
+  (forall g k v, memo (run args val res rstate table const argval accval mval key_eqb body rng_next r0 h) g k = Some v ->
+                 v = mval g k).
 Proof. exact cache_inv. Qed.
 Print Assumptions C20_cache_inv_any_table.
 
@@ -34,35 +38,37 @@ Print Assumptions C20_cache_inv_any_table.
    generator states *)
 Theorem C20_history_independent_any_table :
   forall (args val res rstate : Type) (table : list sig) (const : Z -> val) (argval : Z -> args -> Z -> val)
-         (accval : Z -> args -> Z -> option val -> val)
+         (accval : Z -> args -> Z -> option val -> val) (mval : Z -> args -> val) (key_eqb : args -> args -> bool)
          (body : Z -> args -> list (option val) -> @rsrc rstate -> res)
          (rng_next : Z -> args -> @rsrc rstate -> rstate -> rstate),
+  (forall a b, key_eqb a b = true -> a = b) -> (forall a, key_eqb a a = true) ->
   sigs_ok table -> forall r0 r0' h c,
-  result_after args val res rstate table const argval accval body rng_next r0 h c =
-  result_after args val res rstate table const argval accval body rng_next r0' [] c.
+  result_after args val res rstate table const argval accval mval key_eqb body rng_next r0 h c =
+  result_after args val res rstate table const argval accval mval key_eqb body rng_next r0' [] c.
 Proof. exact history_independent. Qed.
 Print Assumptions C20_history_independent_any_table.
 
 (* Full: a result never depends on the incoming global generator state or the clock, in any world *)
 Theorem C20_rng_leak_free_any_table :
   forall (args val res rstate : Type) (table : list sig) (const : Z -> val) (argval : Z -> args -> Z -> val)
-         (accval : Z -> args -> Z -> option val -> val)
+         (accval : Z -> args -> Z -> option val -> val) (mval : Z -> args -> val) (key_eqb : args -> args -> bool)
          (body : Z -> args -> list (option val) -> @rsrc rstate -> res)
          (rng_next : Z -> args -> @rsrc rstate -> rstate -> rstate),
-  sigs_ok table -> forall (w : world val rstate) r t c,
-  fst (step args val res rstate table const argval accval body rng_next w c) =
-  fst (step args val res rstate table const argval accval body rng_next (mk_world (cache w) r t) c).
+  sigs_ok table -> forall (w : world args val rstate) r t c,
+  fst (step args val res rstate table const argval accval mval key_eqb body rng_next w c) =
+  fst (step args val res rstate table const argval accval mval key_eqb body rng_next (mk_world (cache w) (memo w) r t) c).
 Proof. exact rng_leak_free. Qed.
 Print Assumptions C20_rng_leak_free_any_table.
 
 (* Full: a call changes only the module-level state its signature lists (frame) *)
 Theorem C20_step_frame :
   forall (args val res rstate : Type) (table : list sig) (const : Z -> val) (argval : Z -> args -> Z -> val)
-         (accval : Z -> args -> Z -> option val -> val)
+         (accval : Z -> args -> Z -> option val -> val) (mval : Z -> args -> val) (key_eqb : args -> args -> bool)
          (body : Z -> args -> list (option val) -> @rsrc rstate -> res)
-         (rng_next : Z -> args -> @rsrc rstate -> rstate -> rstate) (w : world val rstate) c g,
+         (rng_next : Z -> args -> @rsrc rstate -> rstate -> rstate) (w : world args val rstate) c g,
   (forall k, ~ In (g, k) (s_fills (lookup table (fst c)))) ->
-  cache (snd (step args val res rstate table const argval accval body rng_next w c)) g = cache w g.
+  cache (snd (step args val res rstate table const argval accval mval key_eqb body rng_next w c)) g = cache w g /\
+  (forall k, memo (snd (step args val res rstate table const argval accval mval key_eqb body rng_next w c)) g k = memo w g k).
 Proof. exact step_frame. Qed.
 Print Assumptions C20_step_frame.
 
@@ -83,30 +89,35 @@ Print Assumptions C20_inplace_candidates_exempt.
 
 Theorem C20_cache_inv :
   forall (args val res rstate : Type) (const : Z -> val) (argval : Z -> args -> Z -> val)
-         (accval : Z -> args -> Z -> option val -> val)
+         (accval : Z -> args -> Z -> option val -> val) (mval : Z -> args -> val) (key_eqb : args -> args -> bool)
          (body : Z -> args -> list (option val) -> @rsrc rstate -> res)
-         (rng_next : Z -> args -> @rsrc rstate -> rstate -> rstate) r0 h g v,
-  cache (run args val res rstate sigs const argval accval body rng_next r0 h) g = Some v -> v = const g.
+         (rng_next : Z -> args -> @rsrc rstate -> rstate -> rstate),
+  (forall a b, key_eqb a b = true -> a = b) -> forall r0 h,
+  (forall g v, cache (run args val res rstate sigs const argval accval mval key_eqb body rng_next r0 h) g = Some v ->
+               v = const g) /\
+  (forall g k v, memo (run args val res rstate sigs const argval accval mval key_eqb body rng_next r0 h) g k = Some v ->
+                 v = mval g k).
 Proof. exact gen_cache_inv. Qed.
 Print Assumptions C20_cache_inv.
 
 Theorem C20_history_independent :
   forall (args val res rstate : Type) (const : Z -> val) (argval : Z -> args -> Z -> val)
-         (accval : Z -> args -> Z -> option val -> val)
+         (accval : Z -> args -> Z -> option val -> val) (mval : Z -> args -> val) (key_eqb : args -> args -> bool)
          (body : Z -> args -> list (option val) -> @rsrc rstate -> res)
-         (rng_next : Z -> args -> @rsrc rstate -> rstate -> rstate) r0 r0' h c,
-  result_after args val res rstate sigs const argval accval body rng_next r0 h c =
-  result_after args val res rstate sigs const argval accval body rng_next r0' [] c.
+         (rng_next : Z -> args -> @rsrc rstate -> rstate -> rstate),
+  (forall a b, key_eqb a b = true -> a = b) -> (forall a, key_eqb a a = true) -> forall r0 r0' h c,
+  result_after args val res rstate sigs const argval accval mval key_eqb body rng_next r0 h c =
+  result_after args val res rstate sigs const argval accval mval key_eqb body rng_next r0' [] c.
 Proof. exact gen_history_independent. Qed.
 Print Assumptions C20_history_independent.
 
 Theorem C20_rng_leak_free :
   forall (args val res rstate : Type) (const : Z -> val) (argval : Z -> args -> Z -> val)
-         (accval : Z -> args -> Z -> option val -> val)
+         (accval : Z -> args -> Z -> option val -> val) (mval : Z -> args -> val) (key_eqb : args -> args -> bool)
          (body : Z -> args -> list (option val) -> @rsrc rstate -> res)
-         (rng_next : Z -> args -> @rsrc rstate -> rstate -> rstate) (w : world val rstate) r t c,
-  fst (step args val res rstate sigs const argval accval body rng_next w c) =
-  fst (step args val res rstate sigs const argval accval body rng_next (mk_world (cache w) r t) c).
+         (rng_next : Z -> args -> @rsrc rstate -> rstate -> rstate) (w : world args val rstate) r t c,
+  fst (step args val res rstate sigs const argval accval mval key_eqb body rng_next w c) =
+  fst (step args val res rstate sigs const argval accval mval key_eqb body rng_next (mk_world (cache w) (memo w) r t) c).
 Proof. exact gen_rng_leak_free. Qed.
 Print Assumptions C20_rng_leak_free.
 
@@ -123,6 +134,19 @@ Print Assumptions C20_accumulating_state_refuted.
 Theorem C20_unseeded_draw_refuted : exists h c, r_result t_unseeded 0 h c <> r_result t_unseeded 0 [] c.
 Proof. exact unseeded_draw_refuted. Qed.
 Print Assumptions C20_unseeded_draw_refuted.
+
+(* a memo table `if key not in G: G[key] = pure(args)` keyed by the full argument never changes results
+   (instance of the general theorem on a table the checker accepts), and the key hypothesis is necessary:
+   with a key that does not determine the arguments the first call's value is served to later calls *)
+Theorem C20_memo_full_key_history_independent : forall h c, r_result t_memo 0 h c = r_result t_memo 1 [] c.
+Proof. exact memo_full_key_example. Qed.
+Print Assumptions C20_memo_full_key_history_independent.
+
+Theorem C20_memo_partial_key_refuted : exists h c,
+  result_after Z Z _ Z t_memo r_const r_argval r_accval r_mval (fun _ _ => true) r_body r_next 0 h c <>
+  result_after Z Z _ Z t_memo r_const r_argval r_accval r_mval (fun _ _ => true) r_body r_next 0 [] c.
+Proof. exact memo_partial_key_refuted. Qed.
+Print Assumptions C20_memo_partial_key_refuted.
 
 Theorem C20_unguarded_read_refuted : exists h c, r_result t_unguarded 0 h c <> r_result t_unguarded 0 [] c.
 Proof. exact unguarded_read_refuted. Qed.
